@@ -1,0 +1,13 @@
+//go:build verif
+
+// Machine contract of the ulule rate limiter operator (C20): each item is forwarded unchanged, at most once, exactly
+// when the store neither fails nor reports the limit as reached; a store error ends the stream. Comments only.
+
+package roratelimit
+
+//@ operator NewRateLimiter
+//@   props C20 C09
+//@   track call.Limiter.Get
+//@   on next(ctx, value) when res(call.Limiter.Get, 1) != nil : emits call.Limiter.Get(_, ctx, keyGetter_0(value)), Error(ctx, res(call.Limiter.Get, 1))
+//@   on next(ctx, value) when res(call.Limiter.Get, 1) == nil && !res(call.Limiter.Get, 0).Reached : emits call.Limiter.Get(_, ctx, keyGetter_0(value)), Next(ctx, value)
+//@   on next(ctx, value) when res(call.Limiter.Get, 1) == nil && res(call.Limiter.Get, 0).Reached : emits call.Limiter.Get(_, ctx, keyGetter_0(value))
